@@ -22,6 +22,14 @@ TREES = {
     "N2": (["strat", "strat", "strat", "sec", "sec", "sec"], [1, 1, 2, 3, 3, 2], ["r", "k", "g", "a", "b", "c"]),
 }
 
+# fixed-income trees: the root is a FixedIncomeStrategy
+FI_TREES = {
+    "FI3": (["strat", "cpsec", "fisec", "hedge"], [1, 1, 1, 1], ["r", "a", "b", "h"]),
+    "FI4": (["strat", "cpsec", "cpsec", "sec", "cphedge"], [1, 1, 1, 1, 1], ["r", "a", "b", "s", "h"]),
+    "FIN": (["strat", "strat", "cpsec", "fisec", "cpsec"], [1, 1, 2, 2, 1], ["r", "k", "a", "b", "c"]),
+}
+TREES.update(FI_TREES)
+
 COMMS = {
     "zero": {"k": "zero", "a": Z, "b": Z},
     "fix": {"k": "fix", "a": [1, 1], "b": Z},
@@ -29,6 +37,11 @@ COMMS = {
     "tier": {"k": "tier", "a": [2, 1], "b": [1, 4]},
     "prop": {"k": "prop", "a": [1, 100], "b": Z},
 }
+
+
+def rat_(x):
+    f = Fraction(x)
+    return [f.numerator, f.denominator]
 
 
 def kids_of(par):
@@ -114,6 +127,25 @@ def make_C(rng, tree=None, T=4, comm=None, spread=None, integer=True, mults=(1, 
         "DW": 200000,
         "paper": False,
     }
+    if tree in FI_TREES:
+        C["fi"] = [kinds[i] in ("cpsec", "cphedge") or kinds[i] == "strat" for i in range(N)]
+        cpn, cl, cs = [], [], []
+        for i in range(N):
+            if kinds[i] in ("cpsec", "cphedge"):
+                cpn.append([rat_(rng.choice([0, 0, "1/10", "1/4", "1/2", 1])) for _ in range(T)])
+                mode = rng.choice(["both", "both", "long", "short", "none"])
+                cl.append([rat_(rng.choice([0, "1/20", "1/10"])) if mode in ("both", "long") else NAN for _ in range(T)])
+                cs.append([rat_(rng.choice([0, "1/20", "1/5"])) if mode in ("both", "short") else NAN for _ in range(T)])
+            elif kinds[i] == "strat":
+                cpn.append([]); cl.append([]); cs.append([])
+            else:
+                cpn.append([Z] * T); cl.append([NAN] * T); cs.append([NAN] * T)
+        C["coupon"], C["costl"], C["costs"] = cpn, cl, cs
+        # par-like prices for fixed-income instruments
+        for i in range(N):
+            if kinds[i] != "strat":
+                C["px"][i] = [[rng.choice([95, 98, 100, 100, 101, 104]), 1] for _ in range(T)]
+        C["integer"] = bool(integer)
     # same ticker in several sub-strategies shares the multiplier too
     seen = {}
     for i in range(N):
@@ -273,6 +305,13 @@ class HistoryGen:
         rng = self.rng
         C = self.C
         kind = rng.choice(["allocate", "allocate", "rebalance", "rebalance", "close", "transact", "flatten", "allocate_strat"])
+        if C["fi"][0]:
+            kind = rng.choice(["transact", "transact", "transact", "rebalance", "rebalance", "close", "flatten", "transact_strat"])
+        if kind == "transact_strat":
+            s_ = rng.choice(self.strats)
+            if not self.subtree_usable(s_):
+                return None
+            return {"op": "transact", "node": s_, "a": [rng.choice([10, 50, -20, 100]), 1], "b": NAN, "upd": upd}
         if self.leverage and rng.random() < 0.35:
             c = rng.choice(range(2, self.N + 1))
             if self.subtree_usable(c):
@@ -306,7 +345,10 @@ class HistoryGen:
             if not self.subtree_usable(c):
                 return None
             w = rng.choice(WEIGHTS)
-            return {"op": "rebalance", "node": C["par"][c - 1], "child": c, "a": rat(w), "b": NAN, "upd": upd}
+            base = NAN
+            if C["fi"][0] and rng.random() < 0.6:
+                base = [rng.choice([100, 200, 500, 1000]), 1]  # the notional set by SetNotional
+            return {"op": "rebalance", "node": C["par"][c - 1], "child": c, "a": rat(w), "b": base, "upd": upd}
         if kind == "close":
             c = rng.choice(range(2, self.N + 1))
             if not self.subtree_usable(c):
